@@ -5,7 +5,7 @@ from sweeps import ALL, WS, program_units, halts_extra
 from component import run_corr
 from diffrun import Cfg
 
-PROPS_VO = ['Props/C04_tracker.vo', 'Props/C04.vo']
+PROPS_VO = ['Props/C04_tracker.vo', 'Props/C04.vo', 'Props/C13_layout.vo']
 GEN_ITEMS = ['coq/Gen/GenTracker.v', 'coq/Gen/GenLayout.v', 'coq/Gen/GenStdlib.v', 'coq/Gen/GenTables.v']
 GEN_FROM = {'regen_tracker': ['coq/Gen/GenTracker.v']}
 LEVEL = 'proof'
